@@ -260,7 +260,12 @@ func prop(t *rapid.T) {
 			}
 			u = r.BuildURL(name, rux.NewBuildRequestURL().Params(m).Queries(q))
 		default:
+			// without arguments - twice: the first result belongs to the caller, who edits it in place
+			first := r.BuildURL(name)
+			first.Path += "/edited-by-the-caller"
+			first.RawQuery = "edited=1"
 			u = r.BuildURL(name)
+			ev.Class("built-twice,first-result-edited-by-the-caller")
 		}
 		_ = intVal
 		ev.Eval()
